@@ -11,6 +11,7 @@ import (
 	"sort"
 	"strings"
 	"sync"
+	"sync/atomic"
 	"syscall"
 	"testing"
 	"time"
@@ -238,9 +239,21 @@ func c01Concurrent(w *vfWorld, rec *vfRecorder, idx int) {
 			}
 			return true // plain users publish to sys without attaching
 		}
-		from := s.c.frameCount()
-		id := s.c.send("sub", map[string]any{"topic": s.name}, s.obo)
-		f := s.c.waitCtrl(id, from, vfReplyWait)
+		// a {sub} which arrives while the topic is being loaded is answered 503 ("locked"): retry like a client
+		var f *vfFrame
+		for try := 0; try < 50; try++ {
+			from := s.c.frameCount()
+			id := s.c.send("sub", map[string]any{"topic": s.name}, s.obo)
+			f = s.c.waitCtrl(id, from, vfReplyWait)
+			if f == nil || f.code() != 503 {
+				break
+			}
+			r.InfoAdd("attach_retried_after_503", 1)
+			time.Sleep(2 * time.Millisecond)
+		}
+		if f == nil || f.code() >= 400 {
+			r.InfoAdd("attach_refused:"+kind+":"+codeStr(f), 1)
+		}
 		return f != nil && f.code() < 400
 	}
 	for i, s := range ss {
@@ -371,12 +384,26 @@ func c01Concurrent(w *vfWorld, rec *vfRecorder, idx int) {
 				return
 			}
 			r.Hit("reload_between_bursts")
+			// everybody re-attaches at once while store calls are slowed down: the topic must still be loaded once
+			rec.setDelay(true, rng.Int63())
+			var awg sync.WaitGroup
+			okAll := int32(1)
 			for _, s := range ss {
-				if !attach(s) {
-					r.Inconclusive("c01: re-attach failed")
-					return
-				}
+				awg.Add(1)
+				go func(s *sess) {
+					defer awg.Done()
+					if !attach(s) {
+						atomic.StoreInt32(&okAll, 0)
+					}
+				}(s)
 			}
+			awg.Wait()
+			rec.setDelay(false, 0)
+			if atomic.LoadInt32(&okAll) == 0 {
+				r.Inconclusive("c01: re-attach failed")
+				return
+			}
+			r.Hit("concurrent_reattach_after_unload")
 			e.vfQuiesce()
 			// a new incarnation: the first number issued must exceed everything shown.
 			before := shown
@@ -726,6 +753,21 @@ func c01FaultRun(r *vfkit.R, e *vfEnv, rec *vfRecorder, rng interface{ Intn(int)
 		return nil
 	}
 	r.Hit("fault_point")
+	reloaded := false
+	if f2 != nil && f2.code() == 202 && failOp != "" {
+		// acknowledged although a store call failed: the number is taken for good, also when the topic is unloaded
+		// and loaded again before anything else is published
+		ca.leave(topicA, false)
+		cb.leave(topicB, false)
+		e.vfQuiesce()
+		if e.vfWaitUnloaded(canon) {
+			ca.sub(topicA, nil)
+			cb.sub(topicB, nil)
+			e.vfQuiesce()
+			reloaded = true
+			r.Hit("fault_tolerated_then_reload")
+		}
+	}
 	f3 := pub("m3")
 	e.vfQuiesce()
 	ans := cb.get(topicB, "data", map[string]any{"data": map[string]any{"limit": 100}})
@@ -766,6 +808,23 @@ func c01FaultRun(r *vfkit.R, e *vfEnv, rec *vfRecorder, rng interface{ Intn(int)
 		}
 		if !found {
 			r.Violation("accepted-but-missing:"+label, "publish acknowledged under store fault but absent from history", wit)
+		}
+		seq2, seq3 := 0, 0
+		if v, ok := f2.params()["seq"].(float64); ok {
+			seq2 = int(v)
+		}
+		if f3 != nil && f3.code() == 202 {
+			if v, ok := f3.params()["seq"].(float64); ok {
+				seq3 = int(v)
+			}
+			if seq3 <= seq2 {
+				wit["reloaded_between_m2_and_m3"] = reloaded
+				r.Violation("acknowledged-number-reissued:"+label, fmt.Sprintf("m2 was acknowledged as %d under a store fault; the next publish (topic reloaded in between: %v) was acknowledged as %d", seq2, reloaded, seq3), wit)
+			}
+		} else {
+			// numbering continues above every number shown: the next publish of an entitled author must go through
+			wit["reloaded_between_m2_and_m3"] = reloaded
+			r.Violation("publish-refused-after-acknowledged-one:"+label, fmt.Sprintf("m2 was acknowledged as %d under a store fault; the next publish (topic reloaded in between: %v) is not accepted: %s", seq2, reloaded, frameStr(f3)), wit)
 		}
 	} else {
 		r.Hit("failed_publish_consumes_no_number")
